@@ -5,6 +5,7 @@ import sys
 import common as c
 import c0809_lib as L
 import c09_contexts as X
+import c09_parser as PH
 
 PID = "C09"
 MANIFEST = {
@@ -128,6 +129,8 @@ def main(argv):
         quick = tier == "quick"
         # ---- correspondence
         validated = L.correspondence(res, h, clir, rng, 250 if quick else 3000, PID, "c09")
+        # ---- parser half: text -> pair tree (Peg.v) -> commented AST (PegComments.v) against the real parser
+        validated += PH.parser_half(h, res, c.Rng(seed ^ 0x0C09B), tier, L.py_scan)
         # ---- the property on the implementation
         progs = (L.corpus_programs(PID) + X.programs(rng, 400 if quick else 20000) +
                  L.gen_programs(rng, 500 if quick else 12000, h=h))
